@@ -137,7 +137,7 @@ func TestPropSmallScope(t *testing.T) {
 				layouts = 2
 			}
 			if n == 0 {
-				layouts = 1
+				layouts = 2 // no run at all / one empty run
 			}
 			for layout := 0; layout < layouts; layout++ {
 				nmask := uint(1)
@@ -161,7 +161,10 @@ func TestPropSmallScope(t *testing.T) {
 						c := &Case{Family: "enum", Text: text, Iter: "slice", Paragraph: ev.Thorough()}
 						if n > 0 {
 							c.Runs = enumRuns(idx, layout, mask, pattern)
+						} else if layout == 1 {
+							c.Runs = []RunSpec{{}}
 						}
+						bothAPIs := ev.Thorough() || n <= 1 // the edge-of-contract inputs are tiny: both APIs always
 						c.Cfg.Truncator = TruncSpec{Kind: "glyph", Adv: 64}
 						c.LetterSpacing = enumLetterSpacing
 						if ev.Thorough() && ti%2 == 1 {
@@ -210,7 +213,7 @@ func TestPropSmallScope(t *testing.T) {
 											w = extremeWidths[extremeTurn%len(extremeWidths)]
 										}
 										c.Widths[0] = w
-										c.Paragraph = ev.Thorough() && len(c.Widths) == 1
+										c.Paragraph = bothAPIs && len(c.Widths) == 1
 										// build() copied these into the wrap config: keep both in step
 										b.cfg.BreakPolicy = shapingPolicy(policy)
 										b.cfg.TruncateAfterLines = k
